@@ -76,7 +76,7 @@ func Start(parse wire.ParseFn, opts ...wire.OptionFn) *Env {
 		// an embedding program may set them, and set them short
 		v := reflect.ValueOf(srv).Elem()
 		for i := 0; i < v.NumField(); i++ {
-			if f := v.Field(i); f.CanSet() && f.Type() == reflect.TypeOf(time.Duration(0)) && f.Int() == 0 {
+			if f := v.Field(i); f.CanSet() && f.Type() == reflect.TypeOf(time.Duration(0)) {
 				f.SetInt(int64(25 * time.Millisecond))
 				TimeoutsSet++
 			}
@@ -96,6 +96,21 @@ func (e *Env) Dial(user any) *tr.Conn { return e.L.Dial(user) }
 func (e *Env) Stop() error {
 	e.Srv.Close()
 	return <-e.ServeErr
+}
+
+// EndableSessions is a session middleware of an embedding program that gives every connection a context of
+// its own (a per-session lifetime: a deadline, a log-out); the check ends it through Sess.EndSession.
+func EndableSessions() wire.OptionFn {
+	return wire.SessionMiddleware(func(ctx context.Context) (context.Context, error) {
+		if conn := ConnOf(ctx); conn != nil {
+			if s, _ := conn.User.(*Sess); s != nil {
+				var cancel context.CancelFunc
+				ctx, cancel = context.WithCancel(ctx)
+				s.EndSession = cancel
+			}
+		}
+		return ctx, nil
+	})
 }
 
 // ConnOf recovers the transport connection from a callback context.
@@ -353,7 +368,7 @@ type ExecEnd struct {
 	Err    string
 }
 
-// ShortTimeouts makes Start set every exported, still-zero time.Duration field of the server to 25 ms.
+// ShortTimeouts makes Start set every exported time.Duration field of the server (whatever its default) to 25 ms.
 var ShortTimeouts bool
 
 // TimeoutsSet counts the fields so set.
